@@ -230,7 +230,7 @@ def validate_trace(module, trace, wd, constants, timeout=1500, name=None, xmx="5
             key = (m.group(1), m.group(2), int(m.group(3)))
             if key not in seen:
                 seen.add(key)
-                verdicts.append({"class": key[0], "why": key[1], "line": key[2], "trace": trace})
+                verdicts.append({"class": key[0], "why": key[1], "line": key[2], "trace": trace, "module": module, "constants": constants})
         m = RE_ACCEPT.search(line)
         if m:
             accept = (int(m.group(1)), int(m.group(2)))
@@ -293,8 +293,19 @@ def save_replay(prop, trace, line, verdict, extra=None):
     start, run = extract_run(trace, line)
     h = hashlib.sha1(("".join(run) + json.dumps(verdict, sort_keys=True)).encode()).hexdigest()[:12]
     path = os.path.join(REPLAYS, "%s-%s.json" % (prop, h))
+    # make the extracted run self-contained: line references inside chunk logs are absolute
+    evs = [json.loads(s) for s in run[:20000]]
+    off = start - 1
+    for e in evs:
+        if isinstance(e, dict):
+            if isinstance(e.get("ml"), int):
+                e["ml"] -= off
+            if e.get("ev") == "Reset" and isinstance(e.get("next"), int):
+                e["next"] = min(e["next"] - off, len(evs) + 1)
+                e["c1"] = e.get("c1", 0) - e.get("c0", 0)
+                e["c0"] = 0
     body = {"property": prop, "verdict": verdict, "run_first_line": start, "failing_line_in_run": line - start + 1,
-            "source_trace": trace, "events": [json.loads(s) for s in run[:4000]]}
+            "source_trace": trace, "module": verdict.get("module"), "constants": verdict.get("constants"), "events": evs}
     if extra:
         body.update(extra)
     with open(path, "w") as f:
